@@ -14,7 +14,7 @@ from vcheck.core import Family, Spec
 
 ID = "C02"
 FUNCTIONS = ["pyoak.node:_eq_fn", "pyoak.node:_hash_fn", "pyoak.node:ASTNode.__init_subclass__", "pyoak.node:ASTNode.dfs"]
-POOL = [None, "no", "a", "a2", "b", "c", "gen", "xml", "multi"]
+POOL = [None, "no", "a", "a2", "b", "c", "gen", "xml", "multi", "a_linecol", "a_file", "gen_as_code", "multi_linecol"]
 
 
 def _origins(recipe: Any) -> list[str]:
@@ -133,7 +133,7 @@ def spec(tier: str, seed: int) -> Spec:
         rule="a case = (base recipe, position, origin x, origin y, same/moved) | recipe pair | triple | foreign comparand; all non-trivial; distinct by that tuple",
         variables="selectors only (origin integers cannot stay symbolic: a node's id renders origin.fqn at construction); origin equality over all integers is C15",
         assumptions=["oracle: structural equality of recipes (C01) and position-wise equality of origin keys ('a2' is an equal but distinct copy of 'a')"],
-        outside=["trees beyond the bound", "origins outside the pool of 8"],
+        outside=["trees beyond the bound", "origins outside the pool of 12 (which includes unequal origins that render the same fqn)"],
     )
 
 
